@@ -306,6 +306,7 @@ func (fx *FX) applyContract(fr *frame, st *State, c *Contract, name string, call
 			fx.assume(st.reach, fx.evalBool(env, cl.Expr))
 		}
 	}
+	fx.assumeClosureInvariants(fr, st, args)
 	return results
 }
 
@@ -415,27 +416,65 @@ func (fx *FX) execDeferred(fr *frame, st *State, d deferred) {
 	fx.applyContract(fr, st, nil, "deferred", nil, cc.Signature(), d.args, pos, nil)
 }
 
+// freeVarNames binds the free variables of closure fn to the current contents of the captured
+// cells (as seen from the creating function).
+func (fx *FX) freeVarNames(fr *frame, st *State, fn *ssa.Function, bindings []Val) map[string]Val {
+	names := map[string]Val{}
+	for i, fv := range fn.FreeVars {
+		if i >= len(bindings) {
+			break
+		}
+		b := bindings[i]
+		pt, isPtr := fv.Type().Underlying().(*types.Pointer)
+		switch {
+		case b.Addr != nil:
+			names[fv.Name()] = Val{T: fx.load(fr, st, b.Addr, 0), Typ: derefType(fv.Type())}
+		case isPtr:
+			a := fx.addrOfTerm(b.T, pt.Elem())
+			names[fv.Name()] = Val{T: fx.load(fr, st, a, 0), Typ: pt.Elem()}
+		default:
+			names[fv.Name()] = b
+		}
+	}
+	return names
+}
+
 func (fx *FX) closureCreated(fr *frame, st *State, t *ssa.MakeClosure, clo *Closure) {
-	// free-requires of the closure's contract must hold of the captured values here
 	fn := t.Fn.(*ssa.Function)
 	c := fx.e.contractFor(fn)
-	if c == nil || len(c.FreeReq) == 0 {
+	if c == nil || (len(c.FreeReq) == 0 && len(c.ClosureInv) == 0) {
 		return
 	}
 	env := fx.newEnv(fr, st)
-	env.names = map[string]Val{}
+	env.names = fx.freeVarNames(fr, st, fn, clo.Bindings)
 	env.onlyNames = true
-	for i, fv := range fn.FreeVars {
-		b := clo.Bindings[i]
-		if b.Addr != nil && (b.Addr.Kind == "cell") {
-			env.names[fv.Name()] = Val{T: fx.load(fr, st, b.Addr, t.Pos()), Typ: derefType(fv.Type())}
-		} else {
-			env.names[fv.Name()] = b
-		}
-	}
 	for j, cl := range c.FreeReq {
 		g := fx.evalBool(env, cl.Expr)
 		fx.oblige(st, "pre", fmt.Sprintf("closure(%s).free-requires#%d", fx.e.fnName(fn), j+1), cl.Text, g, t.Pos(), propsOr(cl.Props, c.Props))
+	}
+	for j, cl := range c.ClosureInv {
+		g := fx.evalBool(env, cl.Expr)
+		fx.oblige(st, "inv-init", fmt.Sprintf("closure(%s).invariant#%d.init", fx.e.fnName(fn), j+1), cl.Text, g, t.Pos(), propsOr(cl.Props, c.Props))
+	}
+}
+
+// assumeClosureInvariants: after a call that received closures created here, their invariants hold
+// (each closure body preserves its invariant; the callee cannot name the captured cells otherwise).
+func (fx *FX) assumeClosureInvariants(fr *frame, st *State, args []Val) {
+	for _, a := range args {
+		if a.Clo == nil || a.Clo.Fn == nil || a.Clo.Bindings == nil {
+			continue
+		}
+		c := fx.e.contractFor(a.Clo.Fn)
+		if c == nil || len(c.ClosureInv) == 0 {
+			continue
+		}
+		env := fx.newEnv(fr, st)
+		env.names = fx.freeVarNames(fr, st, a.Clo.Fn, a.Clo.Bindings)
+		env.onlyNames = true
+		for _, cl := range c.ClosureInv {
+			fx.assume(st.reach, fx.evalBool(env, cl.Expr))
+		}
 	}
 }
 
